@@ -8,11 +8,11 @@ A_NOTE = ('Trusts: the finite scenario/seed alphabet (exhaustive within each sce
 CHECKS = {
  'C01': dict(engine='smc', level='model_checking', ref='3/C01',
    tech='explicit-state model checking of the real Sampler: BFS over run-slice/resume histories with structural state hashing; partition invariant evaluated on every transition',
-   text='Every history of one-batch run() slices and resume-from-file actions (resume budget 1 quick / 2 thorough) of each scenario is enumerated to termination on the real Sampler with state de-duplication; the partition invariant (stored point in cube, in own bound, in no later bound, shell_association agrees, pending/transferred transfer candidates consistent) is evaluated after every transition, i.e. at every batch boundary and after every bound insertion, on native and resumed samplers.',
+   text='Every history of one-batch run() slices and resume-from-file actions (resume budget 1 quick / 2 thorough) of each scenario is enumerated to termination on the real Sampler with state de-duplication; the partition invariant (stored point in cube, in own bound, in no later bound, shell_association agrees, pending/transferred transfer candidates consistent) is evaluated after every transition, i.e. at every batch boundary and after every bound insertion, on native and resumed samplers; a second variant runs each scenario to completion and then on with n_shell=200 (sampling from early shells) and resumes; additionally every COMPLETED checkpoint of an uninterrupted run (incl. the mid-step ones written right after a bound insertion) is resumed and checked.',
    note='Trusts the implementation\'s own contains() as the membership predicate (C07/C09 guard its meaning). ' + A_NOTE),
  'C02': dict(engine='smc', level='model_checking', ref='3/C02',
    tech='explicit-state model checking of the real Sampler (slice/resume/toggle histories); estimators recomputed from raw arrays plus an independent proposal tally on every transition',
-   text='All histories over {one-batch slice, resume, discard toggle} within the budgets are enumerated; after every transition log_z, n_eff, eta, per-shell statistics and posterior() weights are recomputed from points/log_l/bounds[i].log_v only and compared at rtol 1e-9; proposal counts are checked against an independent tally taken by wrapping the bounds\' sample() methods.',
+   text='All histories over {one-batch slice, resume, discard toggle} within the budgets are enumerated; after every transition log_z, n_eff, eta, per-shell statistics and posterior() weights are recomputed from points/log_l/bounds[i].log_v only and compared at rtol 1e-9; proposal counts are checked against an independent tally taken by wrapping the bounds\' sample() methods; scenarios include one whose seed is chosen so that an empty shell is removed at the end of exploration, all-rejected bounds, split outer bounds; every completed checkpoint is resumed and checked too.',
    note='Oracle sums in a different order than the implementation (rtol 1e-9); states with only -inf likelihoods skipped. ' + A_NOTE),
  'C03': dict(engine='smc', level='model_checking', ref='3/C03',
    tech='explicit-state model checking of the real Sampler over evaluation modes x blob kinds x batch sizes; every posterior row re-evaluated with the pure likelihood',
@@ -35,8 +35,8 @@ CHECKS = {
    text='Decides uniformity exactly instead of statistically: each probe is proposed from every member containing it and must be kept in exactly M/m of M equally spaced thresholds; multinomial weights equal member volumes; counters count proposed and rejected; closed-form volumes match det A; pool merging equals the workers\' reports; also after HDF5 round trips.',
    note='Probes within 1e-6 of a surface dropped; uniformity of numpy\'s own normal/uniform streams trusted.'),
  'C09': dict(engine='boundmc', level='model_checking', ref='3/C09',
-   tech='every bound state of the C07 state enumeration written to an in-memory HDF5 group and read back; behavioural equality under a cloned generator',
-   text='contains() on lattice + construction + stream points, log_v, and three sample() streams (1/100/2500 points) must be bit-identical between a bound and its read-back for every class, unit T/F, periodic, 0-2 networks with non-default hyper-parameters, fresh/split/trimmed/partly sampled; write-sample-update-read must equal a full write.',
+   tech='every bound state of the C07 state enumeration written to an in-memory HDF5 group and read back (behavioural equality under a cloned generator) plus an exhaustive operation-history search over {sample(1), sample(137), sample(1500), update, reset} on the incremental-update path',
+   text='contains() on lattice + construction + stream points, log_v, and three sample() streams (1/100/2500 points) must be bit-identical between a bound and its read-back for every class, unit T/F, periodic, 0-2 networks with non-default hyper-parameters, fresh/split/trimmed/partly sampled; after every update in every operation sequence up to depth 3 (quick) / 4 (thorough) from a fresh and a partly sampled bound, the group read back must equal a full write of the live bound.',
    note='split() after a read is outside the statement.'),
  'C10': dict(engine='smc', level='model_checking', ref='3/C10',
    tech='explicit-state model checking with an instrumented pure likelihood/prior: call log vs counter, batch grouping, support, budget, virtual timeouts and return-value predicate on every transition',
@@ -44,7 +44,7 @@ CHECKS = {
    note='Return value not judged when recomputed n_eff is within 1e-9 of the target. ' + A_NOTE),
  'C11': dict(engine='smc', level='model_checking', ref='3/C11',
    tech='explicit-state model checking: accessor self-loops at every reachable state, all bounded deviations of pool completion order, lock-step product runs of configurations that must be indistinguishable',
-   text='(a) the full set of read-only accessors is a self-loop on the state digest at every reachable state; (b) scalar vs vectorised, verbose, file vs no file, likelihood pool None/2/3/4 pairs agree at every depth; (c) every batch with a deviating completion order (bounded deviations) reaches the same states; (d) real multiprocessing pools give the serial result.',
+   text='(a) the full set of read-only accessors is a self-loop on the state digest at every reachable state; (b) scalar vs vectorised, verbose, file vs no file, likelihood pool None/2/3/4 pairs agree at every depth; (c) every batch with a deviating completion order (bounded deviations) reaches the same states; (d) real multiprocessing pools give the serial result; (e) two fresh processes with the same seed (different hash seed, legacy numpy seed, terminal width) and the explorer reach identical states at every depth - a divergence is reported as a violation here.',
    note='"unweighted posterior" = posterior() with defaults. ' + A_NOTE),
  'C12': dict(engine='smc', level='model_checking', ref='3/C12',
    tech='explicit-state model checking with toggles of discard_exploration at batch boundaries x resumes; freeze/append-only transition relation, view exactness via a history variable, toggle involution, three-ways product run',
@@ -60,7 +60,7 @@ CHECKS = {
    note='Rows with r within 1e-9 of an integer excluded from the multiplicity clause.'),
  'C15': dict(engine='enum', level='exploration', ref='3/C15',
    tech='bounded-exhaustive enumeration of all declaration programs up to length 4/5 (incl. every malformed declaration at every position) against a reference interpreter',
-   text='All programs over named/auto keys x {uniform, scipy norm, fixed number, link to each earlier key}; dimensionality, inverse CDF in declaration order, monotonicity, shapes, dictionary completeness; every malformed declaration must raise ValueError/TypeError and leave the prior unchanged.',
+   text='All programs over named/auto keys x {uniform, scipy norm, fixed number, link to each earlier key}; dimensionality, inverse CDF in declaration order, monotonicity, shapes, dictionary completeness; every malformed declaration must raise ValueError/TypeError and leave the prior unchanged; every program is run twice: declared completely before use, and with dimensionality()/transforms read after every declaration.',
    note='Distributions limited to uniform and scipy.stats.norm; ppf compared at rtol 1e-9.'),
  'C16': dict(engine='enum', level='exploration', ref='3/C16',
    tech='exhaustive enumeration of float neighbourhoods (+-8/64 ulps) of all critical values x centres x periodic subsets, plus an end-to-end scripted-generator witness',
